@@ -4,6 +4,7 @@ import Ucfg.Spec.C20
 import Ucfg.Spec.C17
 import Ucfg.Spec.C01
 import Ucfg.Model.Ops
+import Ucfg.Spec.C03
 /-
   ucfgdrv: reads one protocol case per line on stdin, runs the Lean model's
   executable definitions on it and prints one JSON result line.
@@ -360,7 +361,7 @@ def opOutJson : OpOut → Json
   | .bool b => .mkObj [("b", .bool b)]
   | .int i => .mkObj [("i", .str (toString i))]
   | .uint n => .mkObj [("u", .str (toString n))]
-  | .float f => .mkObj [("f", .str (toHex16 f))]
+  | .float f => .mkObj [("f", .str (floatHex f))]
   | .str s => .mkObj [("s", .str s)]
   | .handle k => .mkObj [("h", .num k)]
   | .info d a fs => .mkObj [("isDict", .bool d), ("isArray", .bool a), ("fields", .arr (fs.map Json.str).toArray)]
@@ -387,6 +388,55 @@ def runOpsCase (std : Stdlib) (c : Json) : R Json := do
     pure (Json.mkObj [("init", "ok"), ("steps", .arr steps), ("handles", .arr hv.toArray)])
   | r => pure (Json.mkObj [("init", outcomeJson (fun _ => Json.null) r)])
 
+def parseKind (s : String) : R Kind :=
+  match s with
+  | "bool" | "named-bool" => pure .bool
+  | "string" | "named-string" => pure .string
+  | "int" | "int64" => pure (.int 64) | "int8" | "named-int8" => pure (.int 8)
+  | "int16" => pure (.int 16) | "int32" => pure (.int 32)
+  | "uint" | "uint64" => pure (.uint 64) | "uint8" => pure (.uint 8)
+  | "uint16" | "named-uint16" => pure (.uint 16) | "uint32" => pure (.uint 32)
+  | "float32" | "named-float32" => pure (.float 32) | "float64" => pure (.float 64)
+  | "duration" => pure .duration
+  | _ => throw s!"bad kind {s}"
+
+def scalarJson : Scalar → Json
+  | .bool b => .mkObj [("b", .bool b)]
+  | .int i => .mkObj [("i", .str (toString i))]
+  | .uint n => .mkObj [("u", .str (toString n))]
+  | .float f => .mkObj [("f", .str (floatHex f))]
+  | .str s => .mkObj [("s", .str s)]
+  | .dur ns => .mkObj [("dur", .str (toString ns))]
+
+/-- C03 "conv": unpack a primitive setting into a primitive target kind; oracle = Spec.C03.specConv -/
+def runConv (std : Stdlib) (c : Json) : R (Json × Option Json × Option String) := do
+  let k ← match strFieldD c "getter" "" with
+    | "" => parseKind (← strField c "target")
+    | "Bool" => pure Kind.bool | "Int" => pure (Kind.int 64) | "Uint" => pure (Kind.uint 64)
+    | "Float" => pure (Kind.float 64) | _ => pure Kind.string
+  let p ← parsePrimJ ((optField c "v").getD .null)
+  -- normalisation turns positive signed integers into unsigned values
+  let p := match p with
+    | .int i => if i > 0 then Prim.uint i.toNat else .int i
+    | q => q
+  let model := outcomeJson scalarJson (match reifyPrim std k p with
+    | .err e => .err { e with path := some (if strFieldD c "via" "" == "ref" then "w" else "v") }
+    | r => r)
+  let oracle : Option Json := match optField c "impl" with
+    | none => none
+    | some impl =>
+      let want := Spec.C03.specConv std k p
+      match optField impl "ok", want with
+      | some got, some w =>
+        if got.compress == (scalarJson w).compress then some okOracle
+        else some (failOracle s!"stored value differs from the setting's value: want {(scalarJson w).compress}")
+      | some _, none => some (failOracle "a value that cannot be represented in the target was stored instead of failing")
+      | none, some w =>
+        if (optField impl "err").isSome then some (failOracle s!"a representable value was rejected: want {(scalarJson w).compress}")
+        else some (failOracle "crashed")
+      | none, none => if (optField impl "err").isSome then some okOracle else some (failOracle "crashed")
+  pure (model, oracle, none)
+
 def runFull (std : Stdlib) (c : Json) : R (Json × Option Json × Option String) := do
   let k ← strField c "k"
   match k with
@@ -394,6 +444,7 @@ def runFull (std : Stdlib) (c : Json) : R (Json × Option Json × Option String)
   | "json" => runJson std c
   | "merge" => do pure ((← runMerge c), (← mergeOracle c), none)
   | "ops" => do pure ((← runOpsCase std c), none, none)
+  | "conv" => runConv std c
   | _ => do pure ((← runCase std c), none, none)
 
 partial def loop (std : Stdlib) (h : IO.FS.Stream) (out : IO.FS.Stream) : IO Unit := do
